@@ -18,13 +18,15 @@ STATS = dict(gen_ops=0, resets=0, int_seed_states=0, entropy_states=0, fields_ch
 KEY_C = "isclose-stale: in-place model parameter change with |delta| <= 1e-8 + 1e-5*|v| before SRF.__call__"
 
 CLS_PPF = ["Gaussian", "Exponential"]        # inversion sampling path
-CLS_MCMC = ["Stable", "Matern"]              # MCMC sampling path
+CLS_MCMC = ["Stable", "Matern", "Rational", "SuperSpherical", "TPLGaussian"]   # MCMC sampling path; all have optional arguments
 VAR = [0.5, 1.0, 2.3]
 LEN = [1.0, 2.5, 7.0]
 ANIS = [1.0, 0.7, 0.4]
 ANG = [0.0, 0.3, 1.1]
 NUG = [0.0, 0.0, 0.3]
-OPT = {"Stable": ("alpha", [1.5, 0.8]), "Matern": ("nu", [1.0, 2.5])}
+# optional (shape) arguments per class: two clearly different values each
+OPT = {"Stable": [("alpha", [1.5, 0.8])], "Matern": [("nu", [1.0, 2.5])], "Rational": [("alpha", [1.0, 3.0])],
+       "SuperSpherical": [("nu", [2.0, 3.5])], "TPLGaussian": [("hurst", [0.5, 0.8]), ("len_low", [0.0, 0.5])]}
 PERIODS = [5.0, 8.0, 10.0, 12.5]
 N_ANG = {1: 0, 2: 1, 3: 3}
 
@@ -44,7 +46,7 @@ def merge_local_known_findings(ctx):
 
 def rand_spec(rng, dim, cls=None, nugget=None, rotated=None):
     if cls is None:
-        cls = str(rng.choice(CLS_PPF)) if rng.random() < 0.8 else str(rng.choice(CLS_MCMC))
+        cls = str(rng.choice(CLS_PPF)) if rng.random() < 0.7 else str(rng.choice(CLS_MCMC))
     sp = dict(cls=cls, dim=int(dim), var=float(rng.choice(VAR)), len_scale=float(rng.choice(LEN)),
               nugget=float(rng.choice(NUG)) if nugget is None else float(nugget))
     if dim > 1:
@@ -53,8 +55,8 @@ def rand_spec(rng, dim, cls=None, nugget=None, rotated=None):
             sp["angles"] = [0.0] * N_ANG[dim]
         else:
             sp["angles"] = [float(rng.choice(ANG[1:] if rotated else ANG)) for _ in range(N_ANG[dim])]
-    if cls in OPT:
-        sp[OPT[cls][0]] = float(rng.choice(OPT[cls][1]))
+    for arg, vals in OPT.get(cls, []):
+        sp[arg] = float(rng.choice(vals))
     return sp
 
 
@@ -155,6 +157,34 @@ def rand_pos(rng, dim, n, scale=10.0):
     return np.ascontiguousarray(rng.uniform(-scale, scale, size=(dim, n)))
 
 
+OFFSETS = [4.0e5, 5.7e6, 1.2e7]
+
+
+class PosGen:
+    """positions of the calls of one history: O(10) coordinates, or UTM-like coordinates (offset 1e5..1e7 plus O(100)
+    structure) where successive calls are shifted by a few units (far below np.allclose's tolerance relative to the
+    magnitude, but of the order of a correlation length), or coordinates of order 1e-9"""
+
+    def __init__(self, prng, scale):
+        self.prng, self.scale, self.last = prng, scale, None
+        r = prng.random()
+        self.mode = "plain" if r < 0.45 else ("offset" if r < 0.85 else "tiny")
+
+    def next(self, dim, n):
+        g = self.prng
+        if self.mode != "plain" and self.last is not None and self.last.shape[0] == dim and g.random() < 0.7:
+            sh = g.uniform(-5, 5, size=(dim, 1)) + g.uniform(-1, 1, size=self.last.shape)
+            pos = self.last + (sh if self.mode == "offset" else 1e-9 * sh)
+        elif self.mode == "offset":
+            pos = np.array(OFFSETS[:dim])[:, None] + g.uniform(-50, 50, size=(dim, n))
+        elif self.mode == "tiny":
+            pos = 1e-9 * g.uniform(-5, 5, size=(dim, n))
+        else:
+            pos = g.uniform(-self.scale, self.scale, size=(dim, n))
+        self.last = np.ascontiguousarray(pos)
+        return self.last.copy()
+
+
 def master_of(gen):
     return gen._rng._master_rng._master_rng_fct
 
@@ -212,8 +242,8 @@ def gen_plan_rm(rng, cls, n_ops):
         if r < 0.30:
             ops.append(["call", rand_seed(rng), int(rng.integers(1, 6)), str(rng.choice(["field", "f2", "none"]))])
         elif r < 0.55:
-            attr = str(rng.choice(["var", "len_scale", "nugget", "anis", "angles", "opt"]))
-            ops.append(["mod", attr, int(rng.integers(0, 3))])
+            attr = str(rng.choice(["var", "len_scale", "nugget", "anis", "angles", "opt", "opt"]))
+            ops.append(["mod", attr, int(rng.integers(0, 6))])
         elif r < 0.62:
             ops.append(["restore"])
         elif r < 0.68:
@@ -235,6 +265,12 @@ def gen_plan_rm(rng, cls, n_ops):
 def apply_mod(model, attr, k):
     """in-place parameter change of the field's model; values are either identical to the present ones
     or differ by far more than the isclose tolerance of compare()"""
+    if attr == "opt" and model.name in OPT:
+        args = OPT[model.name]
+        arg, vals = args[k % len(args)]
+        setattr(model, arg, vals[(k // len(args)) % 2])      # ONLY the optional argument changes
+        return
+    k = k % 3
     if attr == "var":
         model.var = VAR[k]
     elif attr == "len_scale":
@@ -245,8 +281,6 @@ def apply_mod(model, attr, k):
         model.anis = [ANIS[(k + i) % 3] for i in range(model.dim - 1)]
     elif attr == "angles" and model.dim > 1:
         model.angles = [ANG[(k + i) % 3] for i in range(N_ANG[model.dim])]
-    elif attr == "opt" and model.name in OPT:
-        setattr(model, OPT[model.name][0], OPT[model.name][1][k % 2])
     else:
         model.var = VAR[(k + 1) % 3]
 
@@ -282,6 +316,7 @@ def run_plan_rm(ctx, gs, drv, plan):
     seeds = Seeds()
     tbl = Table(init["sampling"])
     prng = np.random.default_rng(plan["pos_seed"])
+    pgen = PosGen(prng, 10.0)
     model = build_model(gs, init["spec"])
     orig_spec = init["spec"]
     so, sk, sv, stok = seeds.get(init["seed"])
@@ -319,8 +354,8 @@ def run_plan_rm(ctx, gs, drv, plan):
             orig_spec = op[1]
         elif k == "call":
             o, kd, v, tok = seeds.get(op[1])
-            n = op[2]
-            pos = rand_pos(prng, srf.model.dim, n)
+            pos = pgen.next(srf.model.dim, op[2])
+            n = pos.shape[1]
             store = {"field": True, "f2": "f2", "none": False}[op[3]]
             midx = tbl.idx(srf.model)
             iso = srf.model.isometrize(pos)
@@ -447,7 +482,7 @@ def rand_mode_no(rng, dim, odd_ok=True):
 def gen_plan_fo(rng, n_ops):
     _LAST[0] = None
     dim = int(rng.integers(1, 4))
-    spec = rand_spec(rng, dim, cls=str(rng.choice(CLS_PPF + ["Stable"])))
+    spec = rand_spec(rng, dim, cls=str(rng.choice(CLS_PPF + ["Stable", "Matern", "SuperSpherical", "TPLGaussian"])))
     init = dict(cls="Fourier", spec=spec, period=rand_period(rng, dim), mode_no=rand_mode_no(rng, dim, odd_ok=False),
                 seed=rand_seed(rng))
     ops = []
@@ -456,7 +491,7 @@ def gen_plan_fo(rng, n_ops):
         if r < 0.30:
             ops.append(["call", rand_seed(rng), int(rng.integers(1, 6)), str(rng.choice(["field", "f2", "none"]))])
         elif r < 0.52:
-            ops.append(["mod", str(rng.choice(["var", "len_scale", "nugget", "anis", "anis", "angles", "opt"])), int(rng.integers(0, 3))])
+            ops.append(["mod", str(rng.choice(["var", "len_scale", "nugget", "anis", "anis", "angles", "opt", "opt"])), int(rng.integers(0, 6))])
         elif r < 0.58:
             ops.append(["restore"])
         elif r < 0.65:
@@ -491,6 +526,7 @@ def run_plan_fo(ctx, gs, drv, plan):
     seeds = Seeds()
     tbl = Table("auto")
     prng = np.random.default_rng(plan["pos_seed"])
+    pgen = PosGen(prng, 6.0)
     model = build_model(gs, init["spec"])
     orig_spec = init["spec"]
     so, sk, sv, stok = seeds.get(init["seed"])
@@ -552,8 +588,8 @@ def run_plan_fo(ctx, gs, drv, plan):
             orig_spec = op[1]
         elif k == "call":
             o, kd, v, tok = seeds.get(op[1])
-            n = op[2]
-            pos = rand_pos(prng, srf.model.dim, n, scale=6.0)
+            pos = pgen.next(srf.model.dim, op[2])
+            n = pos.shape[1]
             store = {"field": True, "f2": "f2", "none": False}[op[3]]
             midx = tbl.idx(srf.model)
             iso = srf.model.isometrize(pos)
@@ -773,6 +809,44 @@ def tie_calls(ctx, gs, drv, rng, reps):
                           dict(lens=lens, idx=idx), key="tie:generate_grid", no_input=True)
 
 
+def model_params(m):
+    d = dict(var=float(m.var), len_scale=float(m.len_scale), nugget=float(m.nugget))
+    if m.dim > 1:
+        d["anis"] = [float(x) for x in m.anis]
+        d["angles"] = [float(x) for x in np.atleast_1d(m.angles)]
+    for o in m.opt_arg:
+        d[o] = float(getattr(m, o))
+    return d
+
+
+def followup_pair(ctx, gs, a, b, label):
+    """CovModel.__eq__ calls a and b equal although the modelled compare separates them: run the property on this
+    pair — SRF on a, call, change the model IN PLACE to b's parameters, call again, vs a freshly built SRF on b"""
+    pa, pb = model_params(a), model_params(b)
+    pos = np.array([[0.3, 1.7, -2.2, 4.1]] * a.dim) * np.arange(1, a.dim + 1)[:, None]
+    found = False
+    for kind in ("RandMeth", "Fourier") + (("IncomprRandMeth",) if a.dim > 1 else ()):
+        kw = dict(period=8.0, mode_no=4) if kind == "Fourier" else dict(mode_no=12)
+        m = copy.deepcopy(a)
+        srf = gs.SRF(m, generator=kind, seed=20170519, **kw)
+        srf(pos)
+        for k, v in pb.items():
+            if pa[k] != v:
+                setattr(m, k, v)
+        hist = np.array(srf(pos))
+        fresh = np.array(gs.SRF(copy.deepcopy(b), generator=kind, seed=20170519, **kw)(pos))
+        ctx.count(("followup", kind, a.name, a.dim), hist=dict(stage="probe:compare-followup", generator=kind))
+        if not C.bit_equal(hist, fresh):
+            found = True
+            ctx.violation("probe: in-place model change not seen by the generator (%s; %s)" % (kind, label),
+                          "after changing %s in place from %r to %r the SRF still generates with the old model: field differs from a freshly constructed SRF's" % (
+                              a.name, {k: pa[k] for k in pa if pa[k] != pb[k]}, {k: pb[k] for k in pb if pa[k] != pb[k]}),
+                          dict(generator=kind, cls=a.name, dim=a.dim, before=pa, after=pb, settings=kw, seed=20170519,
+                               pos=pos.tolist(), max_abs_diff=float(np.max(np.abs(hist - fresh)))),
+                          key="model-change-unseen:%s:%s" % (a.name, kind))
+    return found
+
+
 def tie_compare(ctx, gs, drv, rng, reps):
     """covmodel.tools.compare (CovModel.__eq__) vs the modelled isclose comparison, incl. pairs around the tolerance"""
     tags = {}
@@ -782,8 +856,15 @@ def tie_compare(ctx, gs, drv, rng, reps):
         a = build_model(gs, sp)
         b = build_model(gs, sp)
         kind = str(rng.choice(["same", "tiny", "edge-in", "edge-out", "big", "class", "dim"]))
-        attr = str(rng.choice(["var", "len_scale", "nugget", "anis", "angles"]))
-        if kind in ("tiny", "edge-in", "edge-out", "big"):
+        attr = str(rng.choice(["var", "len_scale", "nugget", "anis", "angles", "opt", "opt"]))
+        if attr == "opt" and not a.opt_arg:
+            attr = "var"
+        if attr == "opt" and kind in ("tiny", "edge-in", "edge-out", "big"):
+            rel = {"tiny": 1e-9, "edge-in": 5e-6, "edge-out": 2.5e-5, "big": 0.3}[kind]
+            o = str(rng.choice(list(a.opt_arg)))
+            v = getattr(a, o)
+            setattr(b, o, v * (1 - rel) + (0.05 if (kind == "big" and v == 0.0) else 0.0))
+        elif kind in ("tiny", "edge-in", "edge-out", "big"):
             rel = {"tiny": 1e-9, "edge-in": 5e-6, "edge-out": 2.5e-5, "big": 0.3}[kind]
             if attr == "anis" and dim > 1:
                 b.anis = np.array(a.anis) * (1 - rel)
@@ -808,8 +889,12 @@ def tie_compare(ctx, gs, drv, rng, reps):
         ctx.count(("tie", "compare", kind, attr if kind in ("tiny", "edge-in", "edge-out", "big") else "-", dim),
                   hist=dict(stage="tie:compare", compare_kind=kind))
         if ref != mod:
-            ctx.violation("correspondence: CovModel.__eq__ vs model compare", "model comparison differs from its model (%s, %s): %r vs %r" % (kind, attr, ref, mod),
-                          dict(a=list(ea[3]), b=list(eb[3]), kind=kind), key="tie:compare", no_input=True)
+            found = False
+            if ref and not mod and a.name == b.name and a.dim == b.dim:
+                found = followup_pair(ctx, gs, a, b, "%s, %s" % (kind, attr))
+            if not found:
+                ctx.violation("correspondence: CovModel.__eq__ vs model compare", "model comparison differs from its model (%s, %s): %r vs %r" % (kind, attr, ref, mod),
+                              dict(a=list(ea[3]), b=list(eb[3]), kind=kind), key="tie:compare", no_input=True)
 
 
 # --------------------------------------------------------------------------- probes on the implementation
@@ -946,7 +1031,7 @@ def probe_history_vs_fresh(ctx, gs, rng, reps):
     for rep in range(reps):
         kind = ["RandMeth", "Fourier", "IncomprRandMeth"][rep % 3]
         dim = int(rng.integers(2, 4)) if kind == "IncomprRandMeth" else int(rng.integers(1, 4))
-        sp = rand_spec(rng, dim, cls=str(rng.choice(CLS_PPF)), nugget=0.0)
+        sp = rand_spec(rng, dim, cls=str(rng.choice(CLS_PPF if rng.random() < 0.5 else CLS_MCMC)), nugget=0.0)
         model = build_model(gs, sp)
         seed0 = int(rng.choice([5, 100000, 20170519, 2147483600]))
         if kind == "Fourier":
@@ -957,7 +1042,8 @@ def probe_history_vs_fresh(ctx, gs, rng, reps):
         for _ in range(int(rng.integers(1, 8))):
             r = rng.random()
             if r < 0.45:
-                attr, k = str(rng.choice(["var", "len_scale", "anis", "angles"])), int(rng.integers(0, 3))
+                attr = str(rng.choice(["var", "len_scale", "anis", "angles"] + (["opt"] * 4 if sp["cls"] in OPT else [])))
+                k = int(rng.integers(0, 6))
                 apply_mod(srf.model, attr, k)
                 trace.append(["mod", attr, k])
             elif r < 0.65:
@@ -1116,6 +1202,61 @@ def probe_mesh(ctx, gs, rng, reps):
                               key="mesh:%s:%s" % (kind, mode))
 
 
+def probe_positions(ctx, gs, rng, reps):
+    """successive calls of ONE object on position sets that np.allclose calls equal (difference small RELATIVE to the
+    coordinate magnitude, or below atol) but that are different locations: UTM-like offsets 1e5..1e7 shifted by a few
+    units, staggered structured grids at such offsets, coordinates of order 1e-9.  The second call must equal a fresh
+    object's evaluation at the NEW positions and srf.pos must be the new positions"""
+    for rep in range(reps):
+        kind = ["RandMeth", "Fourier", "IncomprRandMeth"][rep % 3]
+        dim = int(rng.integers(2, 4)) if kind == "IncomprRandMeth" else int(rng.integers(1, 4))
+        rotated = bool(rng.random() < 0.25) if dim > 1 else False
+        sp = rand_spec(rng, dim, cls=str(rng.choice(CLS_PPF)), nugget=0.0, rotated=rotated)
+        kw = dict(period=[float(rng.choice(PERIODS)) for _ in range(dim)], mode_no=[4] * dim) if kind == "Fourier" else dict(mode_no=12)
+        seed = int(rng.choice([5, 20170519]))
+        srf = gs.SRF(build_model(gs, sp), generator=kind, seed=seed, **kw)
+        scen = str(rng.choice(["offset-shift", "offset-shift", "tiny", "offset-scale", "plain-shift"]))
+        structured = bool(rng.random() < 0.45)
+        off = np.array([float(rng.choice(OFFSETS)) for _ in range(dim)])
+        if structured:
+            lens = [int(rng.integers(2, 5)) for _ in range(dim)]
+            base = [np.sort(rng.uniform(-40, 40, k)) for k in lens]
+        else:
+            n = int(rng.integers(2, 9))
+            base = [rng.uniform(-40, 40, n) for _ in range(dim)]
+        sets = []
+        for step in range(3):
+            if scen == "offset-shift":       # a few units (of the order of the correlation length) at 1e5..1e7; step 2 of a structured grid = staggered by half a cell
+                sh = rng.uniform(-6, 6, dim) if not (structured and step == 2) else np.array([0.5 * (b[-1] - b[0]) / max(1, len(b) - 1) for b in base])
+                cur = [off[d] + base[d] + (sh[d] if step else 0.0) for d in range(dim)]
+            elif scen == "tiny":
+                cur = [1e-9 * (base[d] + (rng.uniform(-3, 3) if step else 0.0)) for d in range(dim)]
+            elif scen == "offset-scale":     # relative change 3e-6 of large coordinates
+                cur = [(off[d] + base[d]) * (1 + 3e-6 * step) for d in range(dim)]
+            else:
+                cur = [base[d] + (rng.uniform(-6, 6) if step else 0.0) for d in range(dim)]
+            sets.append([np.ascontiguousarray(c, dtype=float) for c in cur])
+        ctx.count(("positions", kind, dim, scen, structured), hist=dict(stage="probe:positions", generator=kind, dim=dim, scenario=scen,
+                                                                       mesh_type="structured" if structured else "unstructured"))
+        mt = "structured" if structured else "unstructured"
+        for step, cur in enumerate(sets):
+            got = np.array(srf(tuple(cur), mesh_type=mt))
+            fresh_srf = gs.SRF(build_model(gs, sp), generator=kind, seed=seed, **kw)
+            want = np.array(fresh_srf(tuple(cur), mesh_type=mt))
+            grid = np.array(np.meshgrid(*cur, indexing="ij")).reshape(dim, -1) if structured else np.array(cur)
+            tol = field_tolerance(srf.model, srf.generator, grid, kind)
+            pos_ok = len(srf.pos) == dim and all(C.bit_equal(a, b) for a, b in zip(srf.pos, cur))
+            if not (eq_tol(got, want, 0.0 if tol == 0.0 else 2 * tol) and pos_ok):
+                ctx.violation("probe: successive calls on nearly equal positions (%s, %s, %s)" % (kind, scen, mt),
+                              "call %d of one object on positions that differ from the previous ones by less than np.allclose's tolerance "
+                              "differs from a fresh evaluation at these positions%s" % (step + 1, "" if pos_ok else " (srf.pos still holds the previous positions)"),
+                              dict(generator=kind, spec=sp, settings=kw, seed=seed, scenario=scen, mesh_type=mt, step=step,
+                                   position_sets=[[[C.fhex(x) for x in a] for a in st] for st in sets[:step + 1]],
+                                   max_abs_diff=float(np.max(np.abs(got - want))) if got.shape == want.shape else None, srf_pos_is_new=pos_ok),
+                              key="positions:%s:%s" % (kind, mt))
+                break
+
+
 def probe_equal_histories(ctx, gs, rng, reps):
     """equal call histories, the seeds held by different objects => equal nugget noise"""
     for rep in range(reps):
@@ -1189,7 +1330,7 @@ def run(ctx, only_plan=None):
                 "same object/distinct objects/numpy ints/None/NaN; in-place var, len_scale, nugget, anis, angles, optional-argument changes and "
                 "restorations; neighbouring large seeds s+1, s-1, s+7, s*(1+3e-6) and int / new object / np.int64 / np.int32 holders; model replacement incl. dimension change; mode_no/period/seed setters, reset_seed, update) compared step by step "
                 "with the extracted state machine, (b) locality probes (permutation, subset, single point, batching, store name, structured, "
-                "meshio incl. every kind of `direction` on 2-D/3-D meshes, points and centroids, returned and stored data), (c) history-vs-fresh, seed-change-vs-fresh (SRF call / seed setter / update routes) and equal-history probes, (d) numeric ties.  Non-trivial = a history with >= 1 generator-level "
+                "meshio incl. every kind of `direction` on 2-D/3-D meshes, points and centroids, returned and stored data), (c) successive calls on nearly-equal positions (UTM-like offsets, staggered grids, 1e-9 magnitudes) vs fresh, history-vs-fresh (incl. optional-argument-only changes), seed-change-vs-fresh (SRF call / seed setter / update routes) and equal-history probes, (d) numeric ties.  Non-trivial = a history with >= 1 generator-level "
                 "operation or a probe with >= 2 points; distinct = distinct (stage, generator, dim, shape/length) keys")
     ctx.trusted = [
         "Coq 8.16.1 kernel (coqc); no native_compute",
@@ -1233,7 +1374,7 @@ def run(ctx, only_plan=None):
                 (run_plan_fo if only_plan["kind"] == "fo_history" else run_plan_rm)(ctx, gs, drv, only_plan)
             return
         corpus_isclose(ctx, gs, drv)
-        n_hist = 160 if thorough else 50
+        n_hist = 160 if thorough else 40
         n_ops = 14 if thorough else 10
         if drv is not None:
             tie_calls(ctx, gs, drv, rng, 80 if thorough else 25)
@@ -1265,6 +1406,7 @@ def run(ctx, only_plan=None):
         probe_locality(ctx, gs, rng, 240 if thorough else 60)
         probe_mesh(ctx, gs, rng, 600 if thorough else 200)
         probe_seed_change(ctx, gs, rng, 480 if thorough else 150)
+        probe_positions(ctx, gs, rng, 600 if thorough else 150)
         probe_history_vs_fresh(ctx, gs, rng, 450 if thorough else 120)
         probe_equal_histories(ctx, gs, rng, 150 if thorough else 45)
         ctx.notes.append("history correspondence: %s" % json.dumps(STATS))
